@@ -283,12 +283,12 @@ def gen_child(repo, toks, out, fps):
         rows.append((dp, hp, kind))
     out += [
         '(* ---- (b) %s: TaffyView::compute_child_layout ---- *)' % TT,
-        'Inductive GDisplay := %s.                (* %s: enum Display *)' % (' | '.join('GD_' + v for v in variants), STYLE),
+        'Inductive GlueDisplay := %s.                (* %s: enum Display *)' % (' | '.join('GD_' + v for v in variants), STYLE),
         'Inductive GKind := GK_hidden | GK_block | GK_flex | GK_grid | GK_leaf.',
         '(* let %s = tree.child_count(node) > 0 *)' % hc,
         'Definition glue_has_children (child_count : nat) : bool := Nat.ltb 0 child_count.',
         '(* match (%s, %s): the table, arm by arm, in source order *)' % (dm, hc),
-        'Definition glue_dispatch (%s : GDisplay) (%s : bool) : GKind :=' % (dm, hc),
+        'Definition glue_dispatch (%s : GlueDisplay) (%s : bool) : GKind :=' % (dm, hc),
         '  match %s, %s with' % (dm, hc)]
     out += ['  | %s, %s => %s' % r for r in rows]
     out += [
@@ -299,7 +299,7 @@ def gen_child(repo, toks, out, fps):
         '  Variable is_hidden_mode : In -> bool.                (* inputs.run_mode == RunMode::PerformHiddenLayout *)',
         '  Variable compute_hidden_layout : Tree -> Node -> option (Tree * Out).',
         '  Variable compute_cached_layout : Tree -> Node -> In -> (Tree -> Node -> In -> option (Tree * Out)) -> option (Tree * Out).',
-        '  Variable display_of : Tree -> Node -> GDisplay.      (* tree.taffy.nodes[node.into()].style.display *)',
+        '  Variable display_of : Tree -> Node -> GlueDisplay.      (* tree.taffy.nodes[node.into()].style.display *)',
         '  Variable child_count : Tree -> Node -> nat.',
         '  Variables compute_block_layout compute_flexbox_layout compute_grid_layout compute_leaf_layout : Tree -> Node -> In -> option (Tree * Out).',
         '  Definition glue_compute_uncached (tree : Tree) (node : Node) (inputs : In) : option (Tree * Out) :=',
